@@ -58,9 +58,13 @@ pub fn c06_history() {
     }
     let mut i = 0;
     while i < steps {
-        let op = vsym::choice("op", 7);
+        // counter = 1: histories over the counter key only {increment n, remove n, snapshot false, snapshot true}
+        let op = if vsym::param("counter", 0) == 1 { [4usize, 7, 5, 6][vsym::choice("op", 4)] } else { vsym::choice("op", 7) };
         vsym::tag(&["o", &i.to_string(), "=", &op.to_string()].concat());
-        if op == 0 || op == 1 {
+        if op == 7 {
+            process_request("remove n", &n.dbs, &mut c);
+            cur[2] = None;
+        } else if op == 0 || op == 1 {
             let v = vsym::any_ascii("val", 1 + (i % 3));
             vsym::assume(v != "<Empty>");
             let r = process_request(&["set ", names[op], " ", &v].concat(), &n.dbs, &mut c);
